@@ -86,3 +86,4 @@ int sz_array_and (int n, int k) { return sizeof (iota (n) & iota (k)); }
 int sz_keys (int n) { return sizeof (keys (mk (0, n))); }
 int sz_values (int n) { return sizeof (values (mk (0, n))); }
 int sz_allocate_mapping (int n) { return sizeof (allocate_mapping (n)); }
+int sz_sprintf_pad (int w, int n) { return strlen (sprintf ("%*s", w, str (n, "x"))); }
